@@ -61,26 +61,33 @@ NewScalar(t, v) == [k |-> "s", t |-> t, v |-> v, anchor |-> "", isalias |-> FALS
 NewCont(k) == [k |-> k, t |-> "", v |-> "", anchor |-> "", isalias |-> FALSE, keys |-> <<>>, kids |-> <<>>]
 IndexLike(sg) == sg.ty = "INDEX" \/ (sg.ty = "KEY" /\ IsPyInt(sg.v))
 \* Nodes.build_next_node: the default a padded / freshly created position starts from
-DefaultFor(rest, t, v) == IF Len(rest) = 0 THEN NewScalar(t, v)
-                          ELSE IF rest[1].ty = "INDEX" THEN NewCont("seq") ELSE NewCont("map")
+DefaultForT(rest, leaf) == IF Len(rest) = 0 THEN leaf
+                           ELSE IF rest[1].ty = "INDEX" THEN NewCont("seq") ELSE NewCont("map")
+DefaultFor(rest, t, v) == DefaultForT(rest, NewScalar(t, v))
 \* the subtree a missing tail creates: BuildTail(rest) is the node for the position the rest starts at
-RECURSIVE BuildTail(_, _, _)
-BuildTail(rest, t, v) ==
-  IF Len(rest) = 0 THEN [ok |-> TRUE, tr |-> NewScalar(t, v)]
-  ELSE LET sg == rest[1] sub == BuildTail(Tail(rest), t, v) IN
+RECURSIVE BuildTailT(_, _)
+BuildTailT(rest, leaf) ==
+  IF Len(rest) = 0 THEN [ok |-> TRUE, tr |-> leaf]
+  ELSE LET sg == rest[1] sub == BuildTailT(Tail(rest), leaf) IN
     IF ~sub.ok THEN sub
     ELSE IF sg.ty = "INDEX" THEN
       \* build_next_node makes a list for an INDEX segment; it is padded up to the index with the same default
       (IF PyIntVal(sg.v) < 0 THEN [ok |-> FALSE, tr |-> NewCont("seq")]
-       ELSE [ok |-> TRUE, tr |-> [NewCont("seq") EXCEPT !.kids = [j \in 1..PyIntVal(sg.v) |-> DefaultFor(Tail(rest), t, v)] \o <<sub.tr>>]])
+       ELSE [ok |-> TRUE, tr |-> [NewCont("seq") EXCEPT !.kids = [j \in 1..PyIntVal(sg.v) |-> DefaultForT(Tail(rest), leaf)] \o <<sub.tr>>]])
     ELSE IF sg.ty = "KEY" THEN
       [ok |-> TRUE, tr |-> [NewCont("map") EXCEPT !.keys = <<[t |-> "str", v |-> sg.v]>>, !.kids = <<sub.tr>>]]
     ELSE [ok |-> FALSE, tr |-> NewCont("map")]
+BuildTail(rest, t, v) == BuildTailT(rest, NewScalar(t, v))
 
 RECURSIVE TreeWithChild(_, _, _, _, _)
 TreeWithChild(d, i, at, keyrec, newkids) ==   \* the tree of d with newkids appended under position `at`
   IF i = at THEN [TreeOf(d, i) EXCEPT !.keys = IF d[i].k = "map" THEN @ \o <<keyrec>> ELSE @, !.kids = @ \o newkids]
   ELSE [TreeOf(d, i) EXCEPT !.kids = [j \in 1..Len(d[i].kids) |-> TreeWithChild(d, d[i].kids[j], at, keyrec, newkids)]]
+
+RECURSIVE TreeReplace(_, _, _, _)
+TreeReplace(d, i, at, newtr) ==   \* the tree of d with the subtree at position `at` replaced
+  IF i = at THEN newtr
+  ELSE [TreeOf(d, i) EXCEPT !.kids = [j \in 1..Len(d[i].kids) |-> TreeReplace(d, d[i].kids[j], at, newtr)]]
 
 \* walk the straight path as far as it exists: [cur, i] = deepest existing position and the index of the first missing segment
 RECURSIVE WalkStraight(_, _, _, _)
@@ -94,11 +101,11 @@ WalkStraight(d, cur, segs, i) ==
 
 Straight(segs) == \A j \in 1..Len(segs) : segs[j].ty \in {"KEY", "INDEX"}
 \* result: [ok, doc, existed]; ok = FALSE when the creation is refused (YAML Path error) or outside the modelled cases
-CreatePath(d, segs, t, v) ==
+CreatePathT(d, segs, leaf) ==
   LET w == WalkStraight(d, Root, segs, 1) IN
   IF ~Straight(segs) \/ ~w.ok THEN [ok |-> FALSE, doc |-> d, existed |-> FALSE, why |-> "notstraight"]
   ELSE IF w.i > Len(segs) THEN [ok |-> TRUE, doc |-> d, existed |-> TRUE, why |-> ""]
-  ELSE LET sg == segs[w.i] n == d[w.cur] rest == SubSeq(segs, w.i + 1, Len(segs)) sub == BuildTail(rest, t, v) IN
+  ELSE LET sg == segs[w.i] n == d[w.cur] rest == SubSeq(segs, w.i + 1, Len(segs)) sub == BuildTailT(rest, leaf) IN
     IF ~sub.ok THEN [ok |-> FALSE, doc |-> d, existed |-> FALSE, why |-> "tail"]
     ELSE IF n.k = "map" THEN
       (IF sg.ty # "KEY" THEN [ok |-> FALSE, doc |-> d, existed |-> FALSE, why |-> "yperr"]
@@ -108,8 +115,11 @@ CreatePath(d, segs, t, v) ==
       (IF ~IndexLike(sg) \/ PyIntVal(sg.v) < 0 THEN [ok |-> FALSE, doc |-> d, existed |-> FALSE, why |-> "yperr"]
        ELSE LET idx == PyIntVal(sg.v) len == Len(n.kids) IN
             [ok |-> TRUE, existed |-> FALSE, why |-> "",
-             doc |-> TabOf(TreeWithChild(d, Root, w.cur, [t |-> "", v |-> ""], [j \in 1..(idx - len) |-> DefaultFor(rest, t, v)] \o <<sub.tr>>))])
-    ELSE [ok |-> FALSE, doc |-> d, existed |-> FALSE, why |-> IF n.k = "s" /\ n.t = "null" THEN "null" ELSE "yperr"]
+             doc |-> TabOf(TreeWithChild(d, Root, w.cur, [t |-> "", v |-> ""], [j \in 1..(idx - len) |-> DefaultForT(rest, leaf)] \o <<sub.tr>>))])
+    ELSE [ok |-> FALSE, doc |-> d, existed |-> FALSE,
+          why |-> IF n.k = "s" /\ n.t = "null" THEN "null" ELSE IF n.k = "set" THEN "set" ELSE "yperr"]   \* creating under a Set: documentation silent
+
+CreatePath(d, segs, t, v) == CreatePathT(d, segs, NewScalar(t, v))
 
 (***************************************************************************)
 (* The step function.  s = [doc, out]; out: "ok" | "unmatched" | "yperr" | *)
